@@ -7,7 +7,7 @@ from .core import (Sym, P, C, Ctx, explore, Unsupported, PathLimit, sym_input, l
 from . import solve, terms as T
 from .instrument import source_hash
 
-SAFETY = {"division-nonzero", "log-arg-positive", "sqrt-arg-nonneg", "pow-domain", "index-in-range", "assert-holds",
+SAFETY = {"ieee-bump-effective", "division-nonzero", "log-arg-positive", "sqrt-arg-nonneg", "pow-domain", "index-in-range", "assert-holds",
           "no-unexpected-raise"}
 
 
@@ -135,7 +135,26 @@ def model_inputs(h, ctx, model):
 
 
 def native_eval(h, inp):
-    """-> {label: bool ok}; runs the REAL function natively (no symbolic mode)"""
+    """float64 evaluation of every clause; the safety clauses (no unexpected raise, finite results, raises-iff) are evaluated
+    again in float32 (the library's default precision) and must hold in both"""
+    from contracts import common
+    out = _native_eval(h, inp)
+    if getattr(h, "native_float32", True):
+        common.NATIVE_DTYPE[0] = torch.float32
+        try:
+            inp32 = {k: np.asarray(v, dtype=np.float32).astype(np.float64) if np.asarray(v).dtype.kind == "f" else v for k, v in inp.items()}
+            o32 = _native_eval(h, inp32, clauses=False)
+            for k in ("no-raise", "finite"):
+                if o32.get(k) is False and out.get(k) is not False:
+                    out[k] = False; out["_outcome32"] = o32.get("_outcome")
+        except Exception as e:
+            out["_float32_error"] = f"{type(e).__name__}: {e}"
+        finally:
+            common.NATIVE_DTYPE[0] = torch.float64
+    return out
+
+
+def _native_eval(h, inp, clauses=True):
     out = {}
     try:
         with torch.no_grad() if False else _nullctx():
@@ -159,7 +178,7 @@ def native_eval(h, inp):
             fin = False
     out["finite"] = fin
     out["_outcome"] = "ret"
-    if h.native_clauses is not None:
+    if h.native_clauses is not None and clauses:
         try:
             out.update({k: bool(v) for k, v in h.native_clauses(h, inp, res).items()})
         except Exception as e:
@@ -231,7 +250,7 @@ def run_harness(h, budget_s=20.0, seed=0, native_tries=300):
                 fail = dict(o)
                 fail["goal"] = str(d.get("goal"))[:600]
                 fail["solver_output"] = str(d["model"])[:1500] if d.get("model") is not None else d["status"]
-                if d["status"] == "sat" and d.get("model") is not None and h.native_call is not None:
+                if d["status"] == "sat" and d.get("model") is not None and h.native_call is not None and ob.kind != "ieee-bump-effective":
                     try:
                         inp = model_inputs(h, ctx, d["model"])
                         nat = native_eval(h, inp)
